@@ -866,6 +866,19 @@ def execRectG (what : String) (r c : Nat) (rest : List String) : String :=
     | some A, some alpha =>
       -- (round 4) the kernels run from the shapes translated from densematrix.hh (`Gen.kernelTable`, Model/C09K.lean);
       -- `conjugateComplex` is the identity on the (real) lanes the harness uses
+      if what ∈ ["madd", "msub", "mscale", "mdiv", "mneg", "maxpy"] then
+        -- (round 4) vector-space operations of DenseMatrix: `rect <op> <shape> <r> <c> <A> <B> [] <alpha>`
+        match parseRM C r c tx, ty with
+        | some B, "[]" =>
+          match what with
+          | "madd" => showRM C (matAdd X R A B)
+          | "msub" => showRM C (matSub X R A B)
+          | "mscale" => showRM C (matScale X R alpha A)
+          | "mdiv" => showRM C (matDiv X R alpha A)
+          | "mneg" => showRM C (matNeg X R A)
+          | _ => showRM C (matAxpy X R alpha A B)
+        | _, _ => "bad-op"
+      else
       match kernelTable.lookup what with
       | some s =>
         if s.form == KForm.n then
